@@ -954,6 +954,9 @@ def run(tier):
         # (sa/finite.py; the exploration is C16's S3-grammar)
         from . import c16
         c16.s3_grammar(prog, rep, memory_rule="J7-strseq")
+        # "a value within the documented range" for over-long digit runs: the accumulation is guarded against wrap-around and the
+        # other edge of each guard rejects the string (C16's arithmetic clauses of the same function)
+        c16.s3(prog, rep)
         if j4_wrap(prog, rep) < 1:
             rep.defer_broken("J4-wrap: no index with an unsigned subtraction found")
     # the command-line parser's reads of argv[optind] and its pack cursor (rules shared with C18)
